@@ -618,7 +618,8 @@ func (c *Client) readResponse() error {
 		return fmt.Errorf("in %v: %v", token, err)
 	}
 
-	if !c.dec.ExpectCRLF() {
+	// readResponseTagged consumes the CRLF itself, before completing the command
+	if tag == "" && !c.dec.ExpectCRLF() {
 		return fmt.Errorf("in response: %v", c.dec.Err())
 	}
 
@@ -738,6 +739,11 @@ func (c *Client) readResponseTagged(tag, typ string) (startTLS *startTLSCommand,
 		}
 	default:
 		return nil, fmt.Errorf("in resp-cond-state: expected OK, NO or BAD status condition, but got %v", typ)
+	}
+
+	// Only report the outcome once the response has been fully received
+	if !c.dec.ExpectCRLF() {
+		return nil, fmt.Errorf("in response: %v", c.dec.Err())
 	}
 
 	c.completeCommand(cmd, cmdErr)
